@@ -14,6 +14,8 @@ META = {
             "around the depth limit and malformed variants are enumerated by lopdf and judged by TLC against the declarative layer.",
     "note": "Trusted: TLC, the transcription of ISO 32000-1 7.7.3 in PageTree!WellFormed/Dfs, the harness's document builder. "
             "Exhaustive only within the model bounds (<=4 nodes, <=3 kids); beyond that sampled.",
+    "bins": ['c12'],
+    "modules": ['MC_PageTree.tla', 'Trace_PageTree.tla'],
     "design_ref": "DESIGN.md section 4 C12",
 }
 
